@@ -227,7 +227,14 @@ let verdict case impl =
          | Some _ -> (match decomp, serialize_request r with
              | Some d, Ok b -> d = b
              | _ -> false) in
-       if mh = frame_hex && body_ok then "ok"
+       if mh = frame_hex && body_ok then begin
+         (* agreement.  On a deterministic 1-in-8 sample of the smaller frames the independent
+            parser is additionally run on the REAL bytes (cannot fail by C09_frame_says_complete;
+            guards the extraction / this driver). *)
+         if String.length frame_hex < 40000 && Hashtbl.hash frame_hex land 7 = 0 && not (property ())
+         then "viol frame-does-not-say-the-request (model agrees with impl!)"
+         else "ok"
+       end
        else if not (property ()) then
          "viol frame-does-not-say-the-request " ^ first_diff mh frame_hex
          ^ (if body_ok then "" else " decompressed-body-differs")
